@@ -82,6 +82,8 @@ pub enum Act {
     ThreadHop,
     /// C18(b): a request of exactly chunk_capacity() bytes is served from the current chunk
     CapProbe,
+    /// C16: an arena method whose user callback panics at its `at`-th invocation
+    PanicCb { which: u8, len: usize, at: u8 },
     /// uniform sub-model (C10): alloc_try_with / try_alloc_try_with of a niche-optimised value whose
     /// Result<T, ()> has size = align = 2^al
     UniTryWith { al: u8, ok: bool, fallible: bool },
@@ -1473,5 +1475,123 @@ impl<const M: usize> World<M> {
         if idx != 0 {
             self.v(10, "iterated_bytes_not_objects", "iterated_bytes_not_objects/object_missing".into(), format!("uniform align {a}: {idx} allocated object(s) do not appear in the iterated slices"));
         }
+    }
+}
+
+// ------------------------------------------------------------------------------------------
+// C16: panicking initialisers / Clone / Default / iterators inside arena methods
+// ------------------------------------------------------------------------------------------
+
+pub const PANIC_CB_NAMES: [&str; 14] = [
+    "alloc_with", "try_alloc_with", "alloc_try_with", "try_alloc_try_with", "alloc_slice_fill_with", "try_alloc_slice_fill_with", "alloc_slice_fill_clone", "alloc_slice_clone",
+    "alloc_slice_fill_iter", "alloc_slice_fill_default", "alloc_slice_try_fill_with", "alloc_slice_try_fill_iter", "try_alloc_slice_clone", "try_alloc_slice_fill_iter",
+];
+
+struct PanicDefault(#[allow(dead_code)] crate::coll::elem::D);
+impl Default for PanicDefault {
+    fn default() -> Self {
+        crate::coll::elem::tick(crate::coll::elem::K_INIT, 0);
+        PanicDefault(crate::coll::elem::D::new(0, 7000, 0))
+    }
+}
+
+impl<const M: usize> World<M> {
+    pub fn do_panic_cb(&mut self, which: u8, len: usize, at: u8) {
+        use crate::coll::elem::{arm_fault, disarm_fault, drop_count, dropped, tick, D, K_CLONE, K_INIT, K_ITER};
+        let what: &'static str = PANIC_CB_NAMES[which as usize];
+        let (pre, pl) = self.pre();
+        let envp = self.env;
+        let base_label = 5000 + self.step * 100;
+        let b = self.bump.take().unwrap();
+        // source values for the clone flavours live in harness memory
+        let srcv: Vec<D> = {
+            let _g = Callback::enter();
+            (0..len).map(|i| D::new(0, base_label + 50 + i as u32, 1)).collect()
+        };
+        let one = D::new(0, base_label + 49, 1);
+        let kinds = match which {
+            6 | 7 | 12 => K_CLONE,
+            8 | 11 | 13 => K_ITER,
+            _ => K_INIT,
+        };
+        arm_fault(kinds, at as u32);
+        let drops_before = dropped(0).len();
+        let r = arena_op(envp, self.step, self.arena, &[], || {
+            let mk = |i: usize| {
+                tick(K_INIT, 0);
+                D::new(0, base_label + i as u32, 1)
+            };
+            match which {
+                0 => { b.alloc_with(|| mk(0)); }
+                1 => { let _ = b.try_alloc_with(|| mk(0)); }
+                2 => { let _ = b.alloc_try_with(|| -> Result<D, ()> { Ok(mk(0)) }); }
+                3 => { let _ = b.try_alloc_try_with(|| -> Result<D, ()> { Ok(mk(0)) }); }
+                4 => { b.alloc_slice_fill_with(len, mk); }
+                5 => { let _ = b.try_alloc_slice_fill_with(len, mk); }
+                6 => { b.alloc_slice_fill_clone(len, &one); }
+                7 => { b.alloc_slice_clone(&srcv); }
+                8 => { b.alloc_slice_fill_iter(LoggedIter { i: 0, n: len, f: |i| { tick(K_ITER, 0); D::new(0, base_label + i as u32, 1) } }); }
+                9 => { b.alloc_slice_fill_default::<PanicDefault>(len); }
+                10 => { let _ = b.alloc_slice_try_fill_with(len, |i| -> Result<D, ()> { Ok(mk(i)) }); }
+                11 => { let _ = b.alloc_slice_try_fill_iter(LoggedIter { i: 0, n: len, f: |i| -> Result<D, ()> { tick(K_ITER, 0); Ok(D::new(0, base_label + i as u32, 1)) } }); }
+                12 => { let _ = b.try_alloc_slice_clone(&srcv); }
+                _ => { let _ = b.try_alloc_slice_fill_iter(LoggedIter { i: 0, n: len, f: |i| { tick(K_ITER, 0); D::new(0, base_label + i as u32, 1) } }); }
+            }
+        });
+        let fired = !disarm_fault();
+        let _ = disarm_fault();
+        self.bump = Some(b);
+        self.note_requests();
+        let _ = log_take();
+        self.tr(|| format!("{what}(len {len}) with the callback panicking at invocation {at}: fired={fired} result={:?}", r.as_ref().err()));
+        // whatever was written into the arena before the panic is leaked: the arena never runs destructors
+        let arena_dropped: Vec<u32> = dropped(0)[..].iter().copied().filter(|l| *l >= base_label && *l < base_label + 50).collect();
+        let _ = drops_before;
+        if !arena_dropped.is_empty() {
+            self.v(16, "arena_dropped_values", format!("arena_dropped_values/{what}"), format!("{what}: values {:?} written into the arena were dropped by the arena", arena_dropped));
+        }
+        for l in &arena_dropped {
+            if drop_count(0, *l) > 1 {
+                self.v(16, "double_drop", format!("double_drop/{what}"), format!("{what}: value {l} dropped twice"));
+            }
+        }
+        match (&r, fired) {
+            (Err(PanicClass::Injected), true) | (Ok(()), false) => {}
+            (Err(p), _) if !matches!(p, PanicClass::Oom) => self.v(16, "unexpected_panic", format!("unexpected_panic/{what}"), format!("{what}: {:?}", p)),
+            _ => {}
+        }
+        self.cov |= if fired { cov::PANIC_OTHER } else { cov::OK_FAST };
+        // ---- the arena must still be consistent and usable
+        let nv = self.viol.len();
+        let judge = self.judge;
+        self.judge = true;
+        let post = self.generic_post(what, &pre, pl, false);
+        let extra: Vec<crate::mc::Violation> = self.viol.drain(nv..).collect();
+        self.judge = judge;
+        for x in extra {
+            // accounting "changed without ledger change" is expected to hold too; everything is reported under C16
+            self.v(16, "arena_inconsistent_after_panic", format!("arena_inconsistent_after_panic/{what}/{}", x.clause), format!("after the caught panic: [{}] {}", x.clause, x.detail));
+            self.v(x.prop, x.clause, x.key, x.detail);
+        }
+        if self.judge {
+            let b = self.bump.take().unwrap();
+            let r2 = arena_op(envp, self.step, self.arena, &[], || b.try_alloc_layout(Layout::from_size_align(8, 8).unwrap()).map(|p| p.as_ptr() as usize).ok());
+            self.bump = Some(b);
+            match r2 {
+                Ok(Some(a)) => {
+                    if !self.accept_block("alloc_after_caught_panic", a, 8, 8, true, None) {
+                        self.v(16, "arena_unusable_after_panic", format!("arena_unusable_after_panic/{what}"), format!("{what}: the block returned after the caught panic is not usable"));
+                    }
+                }
+                _ => self.v(16, "arena_unusable_after_panic", format!("arena_unusable_after_panic/{what}"), format!("{what}: an 8-byte request failed after the caught panic")),
+            }
+            self.terminal = true;
+        }
+        {
+            let _g = Callback::enter();
+            drop(srcv);
+            drop(one);
+        }
+        self.finish(&post, &if fired { Outcome::Panic(PanicClass::Injected) } else { Outcome::Ok });
     }
 }
